@@ -198,7 +198,7 @@ fn exec<S: Service>(w: &mut World<S>, t: &[&str]) -> String {
             let Some((x, _)) = w.liss.get(&l) else { return "none".into() };
             let mut ids: Vec<usize> = vec![];
             let r = if t[0] == "wait" { x.try_wait(|e| ids.push(e.id.as_value())) } else {
-                let to = if w.must.get(&l).map(|s| !s.is_empty()).unwrap_or(false) { Duration::from_secs(2) } else { Duration::ZERO };
+                let to = if w.must.get(&l).map(|s| !s.is_empty()).unwrap_or(false) { Duration::from_secs(2) } else { Duration::from_millis(1) }; // a zero timeout never returns (SO_RCVTIMEO 0 = block forever), reported
                 x.timed_wait(|e| ids.push(e.id.as_value()), to)
             };
             if let Err(e) = r { return format!("err:ListenerWaitError::{e:?}"); }
@@ -319,13 +319,17 @@ pub fn generate(a: &Args) -> Vec<Vec<String>> {
         let (c, d, x) = (optstr(&mut rng, 40, idmax + 1), optstr(&mut rng, 40, idmax + 1), optstr(&mut rng, 40, idmax + 1));
         let dl = match rng.below(10) { 0 => "long", 1 => "short", _ => "-" };
         let mut lines = vec![format!("new {variant} {mn} {ml} {idmax} {c} {d} {x} {nodes} {dl}")];
-        // what probably exists (mostly valid histories)
-        let mut parts: Vec<usize> = vec![0];
+        // what probably exists (mostly valid histories): the generator predicts successes from the limits
+        let (cmn, cml, cnodes) = (mn.max(1) as usize, ml.max(1) as usize, nodes.max(1) as usize);
+        #[derive(Clone)]
+        struct P { k: usize, handle: bool, svc: bool }
+        let mut parts: Vec<P> = vec![P { k: 0, handle: true, svc: true }];
         let mut dead: Vec<usize> = vec![];
         let (mut nots, mut liss): (Vec<(usize, usize)>, Vec<(usize, usize)>) = (vec![], vec![]);
+        let (mut dead_nots, mut dead_liss) = (0usize, 0usize);
         let (mut nn, mut nl, mut np) = (0usize, 0usize, 1usize);
         // weights: open, cnot, clis, dnot, dlis, notify, notifyid, wait, count, dnode, dsvc, kill, cleanup, ls, twait
-        let wts: [u64; 15] = if limits { [6, 16, 16, 8, 8, 10, 6, 10, 4, 1, 1, 2, 3, 3, 1] } else { [4, 9, 10, 4, 4, 18, 12, 20, 3, 2, 2, 3, 4, 3, 2] };
+        let wts: [u64; 15] = if limits { [6, 16, 16, 8, 8, 10, 6, 10, 4, 1, 1, 2, 3, 3, 1] } else { [4, 8, 9, 4, 4, 18, 12, 20, 3, 2, 2, 4, 5, 3, 2] };
         let total: u64 = wts.iter().sum();
         for _ in 0..rng.range(3, a.len) {
             let mut c = rng.below(total);
@@ -333,44 +337,78 @@ pub fn generate(a: &Args) -> Vec<Vec<String>> {
             while c >= wts[k] { c -= wts[k]; k += 1; }
             if nots.is_empty() && rng.chance(40) { k = 1 }
             if liss.is_empty() && rng.chance(40) { k = 2 }
-            // a node to act through: mostly a live one
-            let some_part = |rng: &mut Rng, parts: &Vec<usize>, dead: &Vec<usize>| -> usize {
-                if rng.chance(4) { return rng.below(4) as usize }
-                if !dead.is_empty() && rng.chance(5) { return *rng.pick(dead) }
-                if parts.is_empty() { 0 } else { *rng.pick(parts) }
+            // a node to act through: mostly a live one (with a service handle when `need_svc`)
+            let some_part = |rng: &mut Rng, parts: &Vec<P>, dead: &Vec<usize>, need_svc: bool| -> usize {
+                if rng.chance(3) { return rng.below(4) as usize }
+                if !dead.is_empty() && rng.chance(4) { return *rng.pick(dead) }
+                let c: Vec<usize> = parts.iter().filter(|p| !need_svc || p.svc || rng.chance(5)).map(|p| p.k).collect();
+                if c.is_empty() { usize::MAX } else { *rng.pick(&c) }
+            };
+            let registered = |parts: &Vec<P>, nots: &Vec<(usize, usize)>, liss: &Vec<(usize, usize)>| -> usize {
+                parts.iter().filter(|p| p.svc || nots.iter().any(|e| e.1 == p.k) || liss.iter().any(|e| e.1 == p.k)).count()
             };
             let l = match k {
-                0 => { let p = np; np += 1; parts.push(p); format!("open {p}") }
+                0 => {
+                    let p = np; np += 1;
+                    let reg = registered(&parts, &nots, &liss) + dead.len();
+                    if reg > 0 && reg < cnodes { parts.push(P { k: p, handle: true, svc: true }); }
+                    format!("open {p}")
+                }
                 1 => {
-                    let p = some_part(&mut rng, &parts, &dead);
-                    let x = nn; nn += 1; nots.push((x, p));
+                    let mut p = some_part(&mut rng, &parts, &dead, true);
+                    if p == usize::MAX { if rng.chance(80) { continue } p = 0; }
+                    let x = nn; nn += 1;
+                    if nots.len() + dead_nots < cmn && parts.iter().any(|q| q.k == p && q.svc) { nots.push((x, p)); }
                     format!("cnot {x} {} {p}", optstr(&mut rng, 30, idmax + 1))
                 }
                 2 => {
-                    let p = some_part(&mut rng, &parts, &dead);
-                    let x = nl; nl += 1; liss.push((x, p));
+                    let mut p = some_part(&mut rng, &parts, &dead, true);
+                    if p == usize::MAX { if rng.chance(80) { continue } p = 0; }
+                    let x = nl; nl += 1;
+                    if liss.len() + dead_liss < cml && parts.iter().any(|q| q.k == p && q.svc) { liss.push((x, p)); }
                     format!("clis {x} {p}")
                 }
                 3 if !nots.is_empty() => { let i = rng.below(nots.len() as u64) as usize; let (x, _) = nots.remove(i); format!("dnot {x}") }
                 4 if !liss.is_empty() => { let i = rng.below(liss.len() as u64) as usize; let (x, _) = liss.remove(i); format!("dlis {x}") }
+                3 | 4 | 5 | 6 | 7 if rng.chance(8) => {
+                    // a port that does not exist (any more)
+                    let x = rng.below(6);
+                    match k { 3 => format!("dnot {x}"), 4 => format!("dlis {x}"), 5 => format!("notify {x}"), 6 => format!("notifyid {x} 0"), _ => format!("wait {x}") }
+                }
                 5 if !nots.is_empty() => format!("notify {}", rng.pick(&nots).0),
                 6 if !nots.is_empty() => format!("notifyid {} {}", rng.pick(&nots).0, rng.range(0, idmax + 1)),
                 7 if !liss.is_empty() => format!("wait {}", rng.pick(&liss).0),
                 14 if !liss.is_empty() => format!("twait {}", rng.pick(&liss).0),
-                8 => format!("count {}", some_part(&mut rng, &parts, &dead)),
-                9 => format!("dnode {}", some_part(&mut rng, &parts, &dead)),
-                10 => format!("dsvc {}", some_part(&mut rng, &parts, &dead)),
+                8 => { let p = some_part(&mut rng, &parts, &dead, true); format!("count {}", if p == usize::MAX { 0 } else { p }) }
+                9 => {
+                    let mut p = some_part(&mut rng, &parts, &dead, false);
+                    if p == usize::MAX { p = 0; }
+                    if let Some(q) = parts.iter_mut().find(|q| q.k == p) { q.handle = false; }
+                    format!("dnode {p}")
+                }
+                10 => {
+                    let mut p = some_part(&mut rng, &parts, &dead, false);
+                    if p == usize::MAX { p = 0; }
+                    if let Some(q) = parts.iter_mut().find(|q| q.k == p) { q.svc = false; }
+                    format!("dsvc {p}")
+                }
                 11 if parts.len() > 1 || rng.chance(10) => {
-                    // mostly not the creator, so that somebody is left to clean up
-                    let i = rng.below(parts.len() as u64) as usize;
                     if parts.is_empty() { continue }
-                    let p = parts.remove(i);
+                    let i = rng.below(parts.len() as u64) as usize;
+                    let p = parts.remove(i).k;
                     dead.push(p);
-                    nots.retain(|e| e.1 != p || rng.chance(5));
-                    liss.retain(|e| e.1 != p || rng.chance(5));
+                    dead_nots += nots.iter().filter(|e| e.1 == p).count();
+                    dead_liss += liss.iter().filter(|e| e.1 == p).count();
+                    nots.retain(|e| e.1 != p);
+                    liss.retain(|e| e.1 != p);
                     format!("kill {p}")
                 }
-                12 => format!("cleanup {}", some_part(&mut rng, &parts, &dead)),
+                12 => {
+                    let c: Vec<usize> = parts.iter().filter(|p| p.handle || rng.chance(10)).map(|p| p.k).collect();
+                    let p = if c.is_empty() || rng.chance(5) { rng.below(4) as usize } else { *rng.pick(&c) };
+                    if parts.iter().any(|q| q.k == p && q.handle) { dead.clear(); dead_nots = 0; dead_liss = 0; }
+                    format!("cleanup {p}")
+                }
                 13 => "ls".to_string(),
                 _ => continue,
             };
